@@ -160,7 +160,7 @@ CLAIMED = {
         "technique": "Coq proof (identity-consistency invariant over leaf substitution; cipher laws as hypotheses) + differential correspondence with a stand-in eyaml",
     },
     "C07": {
-        "text": ("24 theorems (Coq, no axioms) over a model of yaml_paths.search_for_paths / yield_children / "
+        "text": ("23 theorems (Coq, no axioms) over a model of yaml_paths.search_for_paths / yield_children / "
                  "record_anchors / search_anchor / process_yaml_file / print_results: the search is sound (only "
                  "satisfying places are reported), complete for value search on ANY document (a lone-scalar document "
                  "included: its place is the root; F-C07-3 repaired) and complete up to the listed finding F-C07-1 with "
@@ -168,10 +168,13 @@ CLAIMED = {
                  "in EVERY mode (all alias modes, key modes, expansion; C07_once_any_mode); "
                  "under each of the four alias-option combinations every visible satisfying place is reported and "
                  "no excluded aliased repeat is (guard: anchor names not redefined = F-C07-4, with a _refuted witness; "
-                 "plus the document well-formedness doc_wf - same oid = same tree among anchored occurrences, scalar keys, "
-                 "merged-in entries hold objects met before - from which the former assumption shared_closed is "
+                 "plus the document well-formedness doc_wf - same oid = same tree among anchored occurrences, scalar keys "
+                 "- from which the former assumption shared_closed is "
                  "PROVED and which the harness evaluates, as extracted, on every encoded document of every run; "
-                 "C07_inline_merge_refuted: an inline merge source that first defines an anchor falsifies its third part; the "
+                 "its former third part merged_closed (false for an inline merge source that first defines an anchor: the "
+                 "former witness C07_inline_merge_refuted, a: {<<: {k: &v hit}} / b: *v reported b) is gone since the "
+                 "repair d5ba308 - a hidden merged-in entry is walked by record_anchors - and the witness is the positive "
+                 "Example C07_inline_merge_repaired; the "
                  "former guard `exposed` is gone since record_anchors keeps the anchors of unsearched subtrees on "
                  "record); --expand reports exactly the leaf descendants; printing emits "
                  "exactly the de-duplicated results; C07_resolves_text_partial - the reported text is the built "
